@@ -94,6 +94,8 @@ def collect(ctx, sub="c01", extra=()):
             d["src"] = vlib.unesc(r[2])
         elif r[1] == "STAGE":
             d["stages"][r[2]] = r[3]
+        elif r[1] == "GENV":
+            d["genv"] = r[2]
         elif r[1] == "SRCPLAIN":
             d["srcplain"] = r[2] if len(r) > 2 else ""
         elif r[1] == "SRCERR":
